@@ -227,6 +227,16 @@ def main():
     if pid not in checks.CHECKS:
         print("unknown property %s" % pid)
         sys.exit(2)
+    if "--replay" in sys.argv:
+        # re-execute one recorded path outside the explorer, against the current working tree
+        rp = sys.argv[sys.argv.index("--replay") + 1]
+        hname = os.path.basename(rp).split(".")[0]
+        spec = next((h for h in checks.CHECKS[pid]["harnesses"] if h["name"] == hname), checks.CHECKS[pid]["harnesses"][0])
+        if spec.get("kind", "vx") == "script":
+            print(open(rp).read())
+            sys.exit(0)
+        exe = build_harness(spec)
+        sys.exit(subprocess.run([exe, "--tier", tier, "--replay", rp], env=ENV).returncode)
     t0 = time.time()
     rundir = os.path.join(BUILD, "run", pid if os.path.realpath(REPO) == "/repo" else pid + "_scratch_%s" % os.environ.get("VERIF_RUN_TAG", str(os.getpid())))
     os.makedirs(rundir, exist_ok=True)
